@@ -38,7 +38,9 @@ BODIES = [
     "integer i", "integer :: i", "integer, save :: i", "integer(4) i", "integer(kind=4) i", "integer*4 i",
     "character c", "character*4 c", "character(4) c", "character(len=4) c", "character(len=*) c", "character(*) c",
     "character(len=4, kind=1) c", "character(4, 1) c", "character(kind=1) c", "character(kind=1, len=4) c",
-    "character*(*) c", "character*(4) c", "character c*4", "character c(3)*4", "real a(3)", "real a(3), b(2, 2)",
+    "character*(*) c", "character*(4) c", "character c*4", "character c(3)*4", "character(kind=kind('a'), len=3) :: c",
+    "character(kind=kind('a')) :: c", "character(len('ab'), kind('a')) :: c", "character(kind=1, len=len('abc')) :: c",
+    "character :: a*(n+1) = 'x'", "character c*(2+1)", "read 100\n100 format (i3)", "read 100, a\n100 format (i3)", "real a(3)", "real a(3), b(2, 2)",
     "real, dimension(3) :: a", "real :: a = 1.0", "real :: a(2) = (/ 1.0, 2.0 /)", "real, pointer :: p => null()",
     "double precision d", "doubleprecision d", "double complex z", "type(t) x", "type(t) :: x", "class(t), pointer :: x",
     "class(*), pointer :: x", "procedure(), pointer :: p", "procedure(f), pointer :: p => null()",
